@@ -64,6 +64,7 @@ def cases(tier, seed):
     from symx import meshes
 
     meshes.get_device("bar0", seed)
+    out.append(Case("two-runs-one-path:N<=2:k=2:probes=2", N=2, k=2, probes=2, skip=False, seed=seed, rounds=2))
     out.append(Case("reported-step-size", kind="stepsize", seed=seed, R=2 if tier == "quick" else 3))
     return out
 
@@ -76,7 +77,7 @@ def body_stepsize(H, case):
 
     dev = S.symbolic_device(H, "bar0", case.seed, symbolic_mesh=False)
     ns, ne = len(dev.mesh.sites), len(dev.mesh.edge_mesh.edges)
-    dt_init = H.real("dt_init", lo=1e-3, hi=1.0)
+    dt_init = H.real("dt_init" + sfx, lo=1e-3, hi=1.0)
     mult = H.real("mult", lo=0.1, hi=0.9)
     opts = S.make_options(dt_init=dt_init, dt_max=1.0, adaptive=True, adaptive_window=1, max_solve_retries=case.R, adaptive_time_step_multiplier=mult)
     solver = S.make_solver(H, dev, opts, validate=False)
@@ -112,15 +113,61 @@ def body(H, case):
     from tdgl.solution.solution import Solution
     from tdgl.solver.options import SolverOptions
 
+    rounds = case.params.get("rounds", 1)
+    if rounds == 1:
+        return _one_run(H, case, 0, R, DynamicsData, get_data_range, Solution, SolverOptions)
+    # a history inside one process: run, load, delete the output, run again to the same path, load
+    import os
+    import shutil
+    import tempfile
+
+    fs = case.params.get("_fs")
+    if H.mode == "sym":
+        fs.files.clear(); fs.dirs.clear(); fs.dirs.add("/work"); fs.open_handles.clear(); fs.log.clear()
+        work = "/work"
+    else:
+        work = tempfile.mkdtemp(prefix="c05-")
+    case.params["path"] = work + "/out.h5"
+    try:
+        for rnd in range(rounds):
+            _one_run(_Prefixed(H, f"run {rnd + 1} to the same path: "), case, rnd, R, DynamicsData, get_data_range, Solution, SolverOptions)
+            if H.mode == "sym":
+                fakeh5.FakeOs(fs).remove(case.params["path"])
+            else:
+                os.remove(case.params["path"])
+    finally:
+        if H.mode != "sym":
+            shutil.rmtree(work, ignore_errors=True)
+
+
+class _Prefixed:
+    """the harness handle with every claim name prefixed (several rounds inside one case)"""
+
+    def __init__(self, H, prefix):
+        self._H, self._p = H, prefix
+
+    def __getattr__(self, k):
+        return getattr(self._H, k)
+
+    def prove(self, name, *a, **kw):
+        return self._H.prove(self._p + name, *a, **kw)
+
+    def prove_eq(self, name, *a, **kw):
+        return self._H.prove_eq(self._p + name, *a, **kw)
+
+
+def _one_run(H, case, rnd, R, DynamicsData, get_data_range, Solution, SolverOptions):
+    sfx = f"_r{rnd}" if rnd else ""
+    rtag = f"run {rnd + 1}: " if case.params.get("rounds", 1) > 1 else ""
     N, k, P = case.N, case.k, case.probes
-    T = H.real("T", lo=0.0, hi=N / 2, lo_open=True)
-    Ts = H.real("Ts", lo=0.0, hi=N / 2, lo_open=True) if case.skip else 0.0
-    dt_init = H.real("dt_init", lo=0.5, hi=1.0)
-    dts = {"T": [H.real(f"dtT{i}", lo=0.5, hi=1.0) for i in range(N + 2)], "S": [H.real(f"dt{i}", lo=0.5, hi=1.0) for i in range(N + 2)]}
-    mus = [[H.real(f"mu{i}_{p}") for p in range(P)] for i in range(N + 2)]
-    thetas = [[H.real(f"theta{i}_{p}") for p in range(P)] for i in range(N + 2)]
+    T = H.real("T" + sfx, lo=0.0, hi=N / 2, lo_open=True)
+    Ts = H.real("Ts" + sfx, lo=0.0, hi=N / 2, lo_open=True) if case.skip else 0.0
+    dt_init = H.real("dt_init" + sfx, lo=0.5, hi=1.0)
+    dts = {"T": [H.real(f"dtT{i}{sfx}", lo=0.5, hi=1.0) for i in range(N + 2)], "S": [H.real(f"dt{i}{sfx}", lo=0.5, hi=1.0) for i in range(N + 2)]}
+    mus = [[H.real(f"mu{i}_{p}{sfx}") for p in range(P)] for i in range(N + 2)]
+    thetas = [[H.real(f"theta{i}_{p}{sfx}") for p in range(P)] for i in range(N + 2)]
     screen = P > 0 or k == 1  # the record of screening iterations is kept in these configurations
-    its = [H.real(f"iters{i}", lo=0.0, hi=50.0) for i in range(N + 2)]
+    its = [H.real(f"iters{i}{sfx}", lo=0.0, hi=50.0) for i in range(N + 2)]
     opts = SolverOptions(solve_time=T, skip_time=Ts, dt_init=dt_init, save_every=k, progress_interval=0)
     st = dict(total=0, stage="T" if case.skip else "S", calls={"T": 0, "S": 0}, log=[])
 
@@ -150,7 +197,8 @@ def body(H, case):
     if screen:
         names["screening_iterations"] = 1
     logger = NullLogger()
-    with R.DataHandler(output_file=None, logger=logger) as dh:
+    out_path = case.params.get("path")
+    with R.DataHandler(output_file=out_path, logger=logger) as dh:
         runner = R.Runner(function=update, options=opts, data_handler=dh, initial_values=[np.array([0])], names=["v"],
                           running_names_and_sizes=names, logger=logger)
         ok = runner.run()
